@@ -32,6 +32,10 @@ func runC06(p *eng.Prog, r *eng.Report, tier string) {
 	chanRules(c, "C06.3", scope, why)
 	c06Waiters(c)
 	c06JoinCtx(c)
+	// C06.6 the library's own helpers release every response they obtain
+	respRelease(c, "C06.6", 8)
+	// C06.7 a hand-off record queued for the handler is taken back when the call fails
+	handoffWithdrawn(c, "C06.7", "muc", "(*Channel).JoinPresence", "muc.Channel.join")
 	// lock discipline of the waiter tables
 	lockDiscipline(c, "C06.1", "xmpp.Session.sentStanzas", "xmpp.Session.sentStanzaMutex", map[string]string{"xmpp.negotiateSession": "construction"}, 3)
 	lockDiscipline(c, "C06.1", "receipts.Handler.sent", "receipts.Handler.m", nil, 4)
@@ -247,6 +251,11 @@ func c06Waiters(c *cx) {
 					continue
 				}
 				n++
+				if op.inSelect && op.hasDef {
+					// a select with a default arm never blocks
+					c.r.Check(id, fn, op.kind+" "+op.class+" (non-blocking)", "every blocking channel operation of the helper sits in a select with a ctx.Done() arm", op.node.Pos(), true, "")
+					continue
+				}
 				c.r.Check(id, fn, op.kind+" "+op.class, "every blocking channel operation of the helper sits in a select with a ctx.Done() arm", op.node.Pos(), op.inSelect && op.escape, "blocking "+op.kind+" without a ctx.Done() arm")
 			}
 		}
